@@ -22,6 +22,8 @@ def check(ctx):
     pC06.compiled_mode_rules(ctx, "C02.h")   # every configured pattern reaches the compiler, unmodified
     from . import pC15
     pC15.parse_pipeline(ctx, "C02.k")   # patterns and lookaheads: the text parsed is the configured text, default parser configuration
+    from .common import compiled_scanner_is_frozen
+    compiled_scanner_is_frozen(ctx, "C02.m")   # nothing edits a compiled automaton after the pipeline produced it
     from . import casts
     casts.analyze(ctx, {"C17.a"})   # ids of states, groups and classes are injective
     # the property is observed on scanners obtained through build(): the cache must hand back the configuration's own compilation
